@@ -17,6 +17,7 @@ the histories.
 -/
 import Mqtt.Proofs.TopicsRetainedHistory
 import Mqtt.Proofs.XlateTopics
+import Mqtt.Proofs.XlateValid
 
 namespace Mqtt.Properties.C06
 open Mqtt.Model.Topics Mqtt.Proofs.Topics Mqtt.Iface.Topics
@@ -423,5 +424,17 @@ example :
     Mqtt.Generated.Xlate.Topics.nextTopicLevel [97, 47, 98] = .ok ([97], [98], .nil) ∧
     Mqtt.Generated.Xlate.Topics.nextTopicLevel [47, 120] = .ok ([43], [120], .nil) ∧
     Mqtt.Generated.Xlate.Topics.nextTopicLevel [97, 35] = .ok ([], [], .dyn) := by decide
+
+/-- `checkTopic`, the test in front of the five entry points of `MemTopics`, is the model's
+(an error made by `fmt.Errorf` exactly for the empty topic and for topics beginning with '$';
+never an index panic) -/
+theorem C06_checkTopic_is_source (t : List UInt8) :
+    Mqtt.Generated.Xlate.Topics.checkTopic t
+      = .ok (if checkTopic t then Mqtt.Generated.Xlate.Err.dyn else Mqtt.Generated.Xlate.Err.nil) :=
+  Mqtt.Proofs.XlateValid.checkTopic_is_source t
+
+/-- `message.ValidQos`, which `Subscribe` and `Subscribers` call first, is the model's `validQos` -/
+theorem C06_ValidQos_is_source (q : UInt8) : Mqtt.Generated.Xlate.Message.ValidQos q = validQos q.toNat :=
+  Mqtt.Proofs.XlateValid.ValidQos_is_topics q
 
 end Mqtt.Properties.C06
